@@ -28,11 +28,20 @@ Definition s2k_then (k : fmt) : fmt :=
                    (4, FBytes 16 ;; FU8 ;; FU8 ;; FU8 ;; k) ]
                  FRest (val_n t)).
 
+(* 9.3 cipher block sizes = IV sizes; 9.6 AEAD nonce sizes *)
+Definition iv_fmt (sym : N) : fmt :=
+  sw [ (1, FBytes 8); (2, FBytes 8); (3, FBytes 8); (4, FBytes 8);
+       (7, FBytes 16); (8, FBytes 16); (9, FBytes 16); (10, FBytes 16);
+       (11, FBytes 16); (12, FBytes 16); (13, FBytes 16) ] FRest sym.
+Definition nonce_fmt (aead : N) : fmt :=
+  sw [ (1, FBytes 16); (2, FBytes 15); (3, FBytes 12) ] FRest aead.
+
 (* ---- 5.3 symmetric-key encrypted session key ---- *)
 Definition skesk : fmt :=
   FDep (FEnum [4; 6; 5])
     (fun v => sw [ (4, FEnum [7; 8; 9] ;; s2k_then FRest);
-                   (6, FLen L8 (FEnum [7; 8; 9] ;; FEnum [1; 2; 3] ;; FLen L8 (s2k_then FUnit) ;; FRest)
+                   (6, FLen L8 (FEnum [7; 8; 9] ;;
+                                FDep (FEnum [1; 2; 3]) (fun a => FLen L8 (s2k_then FUnit) ;; nonce_fmt (val_n a)))
                        ;; FRest) ]
                  FRest (val_n v)).
 
@@ -82,7 +91,7 @@ Definition fp_fmt : fmt :=
 (* 5.2.3.7 .. 5.2.3.36 subpacket bodies; [emb] is the format of an embedded signature *)
 Definition subpacket_body (emb : fmt) (t : N) : fmt :=
   sw [ (2, FU32); (3, FU32); (9, FU32);
-       (4, FU8); (7, FU8); (25, FU8);
+       (4, FOctLt 2); (7, FOctLt 2); (25, FOctLt 2);
        (5, FBytes 2);
        (12, FU8 ;; FU8 ;; FBytes 20);
        (16, FBytes 8);
@@ -153,23 +162,36 @@ Definition public_key : fmt := key_then (fun _ _ => FUnit).
    key material, its IV and its checksum are opaque trailing octets *)
 Definition sym_algs : list N := [7; 8; 9; 1; 2; 3; 4; 10; 11; 12; 13].
 
-Definition secret_part (ver : N) : fmt :=
+(* 5.5.5 algorithm-specific secret key material (unprotected); a two-octet checksum follows
+   in versions before 6 *)
+Definition plain_secret (ver alg : N) : fmt :=
+  let ck := if ver =? 6 then FUnit else FBytes 2 in
+  sw [ (1, FMpi ;; FMpi ;; FMpi ;; FMpi ;; ck); (2, FMpi ;; FMpi ;; FMpi ;; FMpi ;; ck);
+       (3, FMpi ;; FMpi ;; FMpi ;; FMpi ;; ck);
+       (16, FMpi ;; ck); (17, FMpi ;; ck); (18, FMpi ;; ck); (19, FMpi ;; ck); (22, FMpi ;; ck);
+       (25, FBytes 32 ;; ck); (26, FBytes 56 ;; ck); (27, FBytes 32 ;; ck); (28, FBytes 57 ;; ck) ]
+     FRest alg.
+
+Definition secret_part (ver alg : N) : fmt :=
   FDep (FEnum [0; 253; 254; 255; 7; 9])
     (fun u =>
        if ver =? 6 then
-         sw [ (0, FRest);
-              (253, FLen L8 (FEnum sym_algs ;; FEnum [1; 2; 3] ;; FLen L8 (s2k_then FUnit) ;; FRest) ;; FRest);
-              (254, FLen L8 (FEnum sym_algs ;; FLen L8 (s2k_then FUnit) ;; FRest) ;; FRest);
-              (255, FLen L8 (FEnum sym_algs ;; s2k_then FRest) ;; FRest) ]
-            (FLen L8 FRest ;; FRest) (val_n u)
+         sw [ (0, plain_secret ver alg);
+              (253, FLen L8 (FEnum sym_algs ;;
+                             FDep (FEnum [1; 2; 3]) (fun a => FLen L8 (s2k_then FUnit) ;; nonce_fmt (val_n a)))
+                    ;; FRest);
+              (254, FLen L8 (FDep (FEnum sym_algs) (fun s => FLen L8 (s2k_then FUnit) ;; iv_fmt (val_n s)))
+                    ;; FRest);
+              (255, FLen L8 (FDep (FEnum sym_algs) (fun s => s2k_then (iv_fmt (val_n s)))) ;; FRest) ]
+            (FLen L8 (iv_fmt (val_n u)) ;; FRest) (val_n u)
        else
-         sw [ (0, FRest);
+         sw [ (0, plain_secret ver alg);
               (253, FEnum sym_algs ;; FEnum [1; 2; 3] ;; s2k_then FRest);
               (254, FEnum sym_algs ;; s2k_then FRest);
               (255, FEnum sym_algs ;; s2k_then FRest) ]
             FRest (val_n u)).
 
-Definition secret_key : fmt := key_then (fun ver _ => secret_part ver).
+Definition secret_key : fmt := key_then (fun ver alg => secret_part ver alg).
 
 (* ---- the remaining packet bodies ---- *)
 Definition literal : fmt := FEnum [98; 116; 117] ;; FLen L8 FRest ;; FU32 ;; FRest.   (* 5.9 *)
